@@ -143,7 +143,7 @@ func c10Exec(c *Sexp) Outcome {
 	off := int(tf.Pos(0))
 	toks := findArg(c, "toks")
 	sentence := findArg(c, "root")[0].Head() == "sentence"
-	// simulate the property statement; only the LeftTrim-outermost nesting and text.Trim are asserted
+	// simulate the property statement for every nesting (LeftTrim outermost, RightTrim outermost, text.Trim)
 	assertable := true
 	cur := 0
 	wantErr := -1
@@ -152,9 +152,7 @@ func c10Exec(c *Sexp) Outcome {
 	sawWs := false
 	for _, t := range toks {
 		lm, rm, nest := t.List[2].Atom, t.List[3].Atom, t.List[4].Atom
-		if nest == "rl" {
-			assertable = false
-		}
+		_ = nest // since fix D10 (RightTrim keeps whitespace errors in place) the RightTrim-outermost nesting is asserted too
 		if lm != "-" {
 			k, e := wsCheck(data, cur, lm)
 			if k > 0 {
